@@ -69,14 +69,14 @@ func c06Gen(tier string, seed int64) []core.Case {
 					if tier != "thorough" && len(idxs) > 1 && (hi+len(ix))%len(idxs) != 0 {
 						continue // quick: spread the catalogue values over the list positions instead of multiplying
 					}
-					f := faultSpec{fi.Type, fi.Field, ix, how, []string{"low", "mid", "high"}[(k+hi)%3], false}
+					f := faultSpec{fi.Type, fi.Field, ix, how, []string{"low", "mid", "high"}[(k+hi)%3], false, ""}
 					id := fmt.Sprintf("W1/%s/%s", sc.proto, f.String())
 					cs = append(cs, core.Case{ID: id, Class: id, Kind: "w1", P: f.P(sc.P()), Cost: sc.cost})
 				}
 			}
 			if fi.Repeated {
 				for _, how := range listHows {
-					f := faultSpec{fi.Type, fi.Field, "", how, []string{"low", "mid", "high"}[k%3], false}
+					f := faultSpec{fi.Type, fi.Field, "", how, []string{"low", "mid", "high"}[k%3], false, ""}
 					id := fmt.Sprintf("W1/%s/%s", sc.proto, f.String())
 					cs = append(cs, core.Case{ID: id, Class: id, Kind: "w1", P: f.P(sc.P()), Cost: sc.cost})
 				}
@@ -92,7 +92,7 @@ func c06Gen(tier string, seed int64) []core.Case {
 			}
 			for _, how := range []string{"+1", "zero"} {
 				for _, pos := range []string{"low", "high"} {
-					f := faultSpec{fi.Type, fi.Field, "first", how, pos, true}
+					f := faultSpec{fi.Type, fi.Field, "first", how, pos, true, ""}
 					if !fi.Repeated {
 						f.Index = ""
 					}
